@@ -75,13 +75,229 @@ pub proof fn ks_reach_one(k: KStep, a0: KAbs)
 // StreamCipherBackend / StreamCipherClosure / StreamCipherCore are extracted from the pinned `cipher` crate
 // (contracts/dep_stream.py): their default methods and the Apply*/Write* drivers are verified text (D3).
 
-pub trait StreamCipherCounter: Sized {
+// The dependency declares `StreamCipherCounter: TryFrom<i32> + .. + TryInto<usize>` and implements it (by macro) for
+// u32, u64, u128.  The std integer conversions are ASSUMED with their mathematical meaning (Ok iff the value fits the
+// target type, value preserved); `try_into` / `try_from` are renamed token-wise to the shim traits of 05_ranges.rs.
+pub trait StreamCipherCounter: Sized + ShimTryInto<i32> + ShimTryFrom<i32> + ShimTryInto<u32> + ShimTryFrom<u32> + ShimTryInto<u64> + ShimTryFrom<u64> + ShimTryInto<u128> + ShimTryFrom<u128> + ShimTryInto<usize> + ShimTryFrom<usize> {
     spec fn cval(c: Self) -> int;
     spec fn cfits(v: int) -> bool;
+    proof fn conv_laws()
+        ensures
+            forall |c: Self| #[trigger] Self::cval(c) >= 0,
+            forall |c: Self| #[trigger] <Self as ShimTryInto<i32>>::conv_ok(c) <==> i32::MIN <= Self::cval(c) <= i32::MAX,
+            forall |c: Self, u: i32| #[trigger] <Self as ShimTryInto<i32>>::conv_eq(c, u) <==> Self::cval(c) == u as int,
+            forall |u: i32| #[trigger] <Self as ShimTryFrom<i32>>::from_ok(u) <==> Self::cfits(u as int),
+            forall |c: Self, u: i32| #[trigger] <Self as ShimTryFrom<i32>>::from_eq(u, c) <==> Self::cval(c) == u as int,
+            forall |c: Self| #[trigger] <Self as ShimTryInto<u32>>::conv_ok(c) <==> u32::MIN <= Self::cval(c) <= u32::MAX,
+            forall |c: Self, u: u32| #[trigger] <Self as ShimTryInto<u32>>::conv_eq(c, u) <==> Self::cval(c) == u as int,
+            forall |u: u32| #[trigger] <Self as ShimTryFrom<u32>>::from_ok(u) <==> Self::cfits(u as int),
+            forall |c: Self, u: u32| #[trigger] <Self as ShimTryFrom<u32>>::from_eq(u, c) <==> Self::cval(c) == u as int,
+            forall |c: Self| #[trigger] <Self as ShimTryInto<u64>>::conv_ok(c) <==> u64::MIN <= Self::cval(c) <= u64::MAX,
+            forall |c: Self, u: u64| #[trigger] <Self as ShimTryInto<u64>>::conv_eq(c, u) <==> Self::cval(c) == u as int,
+            forall |u: u64| #[trigger] <Self as ShimTryFrom<u64>>::from_ok(u) <==> Self::cfits(u as int),
+            forall |c: Self, u: u64| #[trigger] <Self as ShimTryFrom<u64>>::from_eq(u, c) <==> Self::cval(c) == u as int,
+            forall |c: Self| #[trigger] <Self as ShimTryInto<u128>>::conv_ok(c) <==> u128::MIN <= Self::cval(c) <= u128::MAX,
+            forall |c: Self, u: u128| #[trigger] <Self as ShimTryInto<u128>>::conv_eq(c, u) <==> Self::cval(c) == u as int,
+            forall |u: u128| #[trigger] <Self as ShimTryFrom<u128>>::from_ok(u) <==> Self::cfits(u as int),
+            forall |c: Self, u: u128| #[trigger] <Self as ShimTryFrom<u128>>::from_eq(u, c) <==> Self::cval(c) == u as int,
+            forall |c: Self| #[trigger] <Self as ShimTryInto<usize>>::conv_ok(c) <==> usize::MIN <= Self::cval(c) <= usize::MAX,
+            forall |c: Self, u: usize| #[trigger] <Self as ShimTryInto<usize>>::conv_eq(c, u) <==> Self::cval(c) == u as int,
+            forall |u: usize| #[trigger] <Self as ShimTryFrom<usize>>::from_ok(u) <==> Self::cfits(u as int),
+            forall |c: Self, u: usize| #[trigger] <Self as ShimTryFrom<usize>>::from_eq(u, c) <==> Self::cval(c) == u as int
+    ;
 }
-impl StreamCipherCounter for u32 { open spec fn cval(c: u32) -> int { c as int } open spec fn cfits(v: int) -> bool { 0 <= v <= u32::MAX } }
-impl StreamCipherCounter for u64 { open spec fn cval(c: u64) -> int { c as int } open spec fn cfits(v: int) -> bool { 0 <= v <= u64::MAX } }
-impl StreamCipherCounter for u128 { open spec fn cval(c: u128) -> int { c as int } open spec fn cfits(v: int) -> bool { 0 <= v <= u128::MAX } }
+impl StreamCipherCounter for u32 { open spec fn cval(c: u32) -> int { c as int } open spec fn cfits(v: int) -> bool { 0 <= v <= u32::MAX } proof fn conv_laws() {} }
+impl ShimTryInto<i32> for u32 {
+    type Error = TryFromIntError;
+    #[verifier::external_body]
+    fn shim_try_into(self) -> (r: Result<i32, TryFromIntError>) { unimplemented!() }
+    open spec fn conv_ok(self) -> bool { i32::MIN <= self as int <= i32::MAX }
+    open spec fn conv_eq(self, u: i32) -> bool { u as int == self as int }
+}
+impl ShimTryFrom<i32> for u32 {
+    type Error = TryFromIntError;
+    #[verifier::external_body]
+    fn shim_try_from(s: i32) -> (r: Result<u32, TryFromIntError>) { unimplemented!() }
+    open spec fn from_ok(s: i32) -> bool { 0 <= s as int <= u32::MAX }
+    open spec fn from_eq(s: i32, u: u32) -> bool { u as int == s as int }
+}
+impl ShimTryInto<u32> for u32 {
+    type Error = TryFromIntError;
+    #[verifier::external_body]
+    fn shim_try_into(self) -> (r: Result<u32, TryFromIntError>) { unimplemented!() }
+    open spec fn conv_ok(self) -> bool { u32::MIN <= self as int <= u32::MAX }
+    open spec fn conv_eq(self, u: u32) -> bool { u as int == self as int }
+}
+impl ShimTryFrom<u32> for u32 {
+    type Error = TryFromIntError;
+    #[verifier::external_body]
+    fn shim_try_from(s: u32) -> (r: Result<u32, TryFromIntError>) { unimplemented!() }
+    open spec fn from_ok(s: u32) -> bool { 0 <= s as int <= u32::MAX }
+    open spec fn from_eq(s: u32, u: u32) -> bool { u as int == s as int }
+}
+impl ShimTryInto<u64> for u32 {
+    type Error = TryFromIntError;
+    #[verifier::external_body]
+    fn shim_try_into(self) -> (r: Result<u64, TryFromIntError>) { unimplemented!() }
+    open spec fn conv_ok(self) -> bool { u64::MIN <= self as int <= u64::MAX }
+    open spec fn conv_eq(self, u: u64) -> bool { u as int == self as int }
+}
+impl ShimTryFrom<u64> for u32 {
+    type Error = TryFromIntError;
+    #[verifier::external_body]
+    fn shim_try_from(s: u64) -> (r: Result<u32, TryFromIntError>) { unimplemented!() }
+    open spec fn from_ok(s: u64) -> bool { 0 <= s as int <= u32::MAX }
+    open spec fn from_eq(s: u64, u: u32) -> bool { u as int == s as int }
+}
+impl ShimTryInto<u128> for u32 {
+    type Error = TryFromIntError;
+    #[verifier::external_body]
+    fn shim_try_into(self) -> (r: Result<u128, TryFromIntError>) { unimplemented!() }
+    open spec fn conv_ok(self) -> bool { u128::MIN <= self as int <= u128::MAX }
+    open spec fn conv_eq(self, u: u128) -> bool { u as int == self as int }
+}
+impl ShimTryFrom<u128> for u32 {
+    type Error = TryFromIntError;
+    #[verifier::external_body]
+    fn shim_try_from(s: u128) -> (r: Result<u32, TryFromIntError>) { unimplemented!() }
+    open spec fn from_ok(s: u128) -> bool { 0 <= s as int <= u32::MAX }
+    open spec fn from_eq(s: u128, u: u32) -> bool { u as int == s as int }
+}
+impl ShimTryFrom<usize> for u32 {
+    type Error = TryFromIntError;
+    #[verifier::external_body]
+    fn shim_try_from(s: usize) -> (r: Result<u32, TryFromIntError>) { unimplemented!() }
+    open spec fn from_ok(s: usize) -> bool { 0 <= s as int <= u32::MAX }
+    open spec fn from_eq(s: usize, u: u32) -> bool { u as int == s as int }
+}
+impl StreamCipherCounter for u64 { open spec fn cval(c: u64) -> int { c as int } open spec fn cfits(v: int) -> bool { 0 <= v <= u64::MAX } proof fn conv_laws() {} }
+impl ShimTryInto<i32> for u64 {
+    type Error = TryFromIntError;
+    #[verifier::external_body]
+    fn shim_try_into(self) -> (r: Result<i32, TryFromIntError>) { unimplemented!() }
+    open spec fn conv_ok(self) -> bool { i32::MIN <= self as int <= i32::MAX }
+    open spec fn conv_eq(self, u: i32) -> bool { u as int == self as int }
+}
+impl ShimTryFrom<i32> for u64 {
+    type Error = TryFromIntError;
+    #[verifier::external_body]
+    fn shim_try_from(s: i32) -> (r: Result<u64, TryFromIntError>) { unimplemented!() }
+    open spec fn from_ok(s: i32) -> bool { 0 <= s as int <= u64::MAX }
+    open spec fn from_eq(s: i32, u: u64) -> bool { u as int == s as int }
+}
+impl ShimTryInto<u32> for u64 {
+    type Error = TryFromIntError;
+    #[verifier::external_body]
+    fn shim_try_into(self) -> (r: Result<u32, TryFromIntError>) { unimplemented!() }
+    open spec fn conv_ok(self) -> bool { u32::MIN <= self as int <= u32::MAX }
+    open spec fn conv_eq(self, u: u32) -> bool { u as int == self as int }
+}
+impl ShimTryFrom<u32> for u64 {
+    type Error = TryFromIntError;
+    #[verifier::external_body]
+    fn shim_try_from(s: u32) -> (r: Result<u64, TryFromIntError>) { unimplemented!() }
+    open spec fn from_ok(s: u32) -> bool { 0 <= s as int <= u64::MAX }
+    open spec fn from_eq(s: u32, u: u64) -> bool { u as int == s as int }
+}
+impl ShimTryInto<u64> for u64 {
+    type Error = TryFromIntError;
+    #[verifier::external_body]
+    fn shim_try_into(self) -> (r: Result<u64, TryFromIntError>) { unimplemented!() }
+    open spec fn conv_ok(self) -> bool { u64::MIN <= self as int <= u64::MAX }
+    open spec fn conv_eq(self, u: u64) -> bool { u as int == self as int }
+}
+impl ShimTryFrom<u64> for u64 {
+    type Error = TryFromIntError;
+    #[verifier::external_body]
+    fn shim_try_from(s: u64) -> (r: Result<u64, TryFromIntError>) { unimplemented!() }
+    open spec fn from_ok(s: u64) -> bool { 0 <= s as int <= u64::MAX }
+    open spec fn from_eq(s: u64, u: u64) -> bool { u as int == s as int }
+}
+impl ShimTryInto<u128> for u64 {
+    type Error = TryFromIntError;
+    #[verifier::external_body]
+    fn shim_try_into(self) -> (r: Result<u128, TryFromIntError>) { unimplemented!() }
+    open spec fn conv_ok(self) -> bool { u128::MIN <= self as int <= u128::MAX }
+    open spec fn conv_eq(self, u: u128) -> bool { u as int == self as int }
+}
+impl ShimTryFrom<u128> for u64 {
+    type Error = TryFromIntError;
+    #[verifier::external_body]
+    fn shim_try_from(s: u128) -> (r: Result<u64, TryFromIntError>) { unimplemented!() }
+    open spec fn from_ok(s: u128) -> bool { 0 <= s as int <= u64::MAX }
+    open spec fn from_eq(s: u128, u: u64) -> bool { u as int == s as int }
+}
+impl ShimTryFrom<usize> for u64 {
+    type Error = TryFromIntError;
+    #[verifier::external_body]
+    fn shim_try_from(s: usize) -> (r: Result<u64, TryFromIntError>) { unimplemented!() }
+    open spec fn from_ok(s: usize) -> bool { 0 <= s as int <= u64::MAX }
+    open spec fn from_eq(s: usize, u: u64) -> bool { u as int == s as int }
+}
+impl StreamCipherCounter for u128 { open spec fn cval(c: u128) -> int { c as int } open spec fn cfits(v: int) -> bool { 0 <= v <= u128::MAX } proof fn conv_laws() {} }
+impl ShimTryInto<i32> for u128 {
+    type Error = TryFromIntError;
+    #[verifier::external_body]
+    fn shim_try_into(self) -> (r: Result<i32, TryFromIntError>) { unimplemented!() }
+    open spec fn conv_ok(self) -> bool { i32::MIN <= self as int <= i32::MAX }
+    open spec fn conv_eq(self, u: i32) -> bool { u as int == self as int }
+}
+impl ShimTryFrom<i32> for u128 {
+    type Error = TryFromIntError;
+    #[verifier::external_body]
+    fn shim_try_from(s: i32) -> (r: Result<u128, TryFromIntError>) { unimplemented!() }
+    open spec fn from_ok(s: i32) -> bool { 0 <= s as int <= u128::MAX }
+    open spec fn from_eq(s: i32, u: u128) -> bool { u as int == s as int }
+}
+impl ShimTryInto<u32> for u128 {
+    type Error = TryFromIntError;
+    #[verifier::external_body]
+    fn shim_try_into(self) -> (r: Result<u32, TryFromIntError>) { unimplemented!() }
+    open spec fn conv_ok(self) -> bool { u32::MIN <= self as int <= u32::MAX }
+    open spec fn conv_eq(self, u: u32) -> bool { u as int == self as int }
+}
+impl ShimTryFrom<u32> for u128 {
+    type Error = TryFromIntError;
+    #[verifier::external_body]
+    fn shim_try_from(s: u32) -> (r: Result<u128, TryFromIntError>) { unimplemented!() }
+    open spec fn from_ok(s: u32) -> bool { 0 <= s as int <= u128::MAX }
+    open spec fn from_eq(s: u32, u: u128) -> bool { u as int == s as int }
+}
+impl ShimTryInto<u64> for u128 {
+    type Error = TryFromIntError;
+    #[verifier::external_body]
+    fn shim_try_into(self) -> (r: Result<u64, TryFromIntError>) { unimplemented!() }
+    open spec fn conv_ok(self) -> bool { u64::MIN <= self as int <= u64::MAX }
+    open spec fn conv_eq(self, u: u64) -> bool { u as int == self as int }
+}
+impl ShimTryFrom<u64> for u128 {
+    type Error = TryFromIntError;
+    #[verifier::external_body]
+    fn shim_try_from(s: u64) -> (r: Result<u128, TryFromIntError>) { unimplemented!() }
+    open spec fn from_ok(s: u64) -> bool { 0 <= s as int <= u128::MAX }
+    open spec fn from_eq(s: u64, u: u128) -> bool { u as int == s as int }
+}
+impl ShimTryInto<u128> for u128 {
+    type Error = TryFromIntError;
+    #[verifier::external_body]
+    fn shim_try_into(self) -> (r: Result<u128, TryFromIntError>) { unimplemented!() }
+    open spec fn conv_ok(self) -> bool { u128::MIN <= self as int <= u128::MAX }
+    open spec fn conv_eq(self, u: u128) -> bool { u as int == self as int }
+}
+impl ShimTryFrom<u128> for u128 {
+    type Error = TryFromIntError;
+    #[verifier::external_body]
+    fn shim_try_from(s: u128) -> (r: Result<u128, TryFromIntError>) { unimplemented!() }
+    open spec fn from_ok(s: u128) -> bool { 0 <= s as int <= u128::MAX }
+    open spec fn from_eq(s: u128, u: u128) -> bool { u as int == s as int }
+}
+impl ShimTryFrom<usize> for u128 {
+    type Error = TryFromIntError;
+    #[verifier::external_body]
+    fn shim_try_from(s: usize) -> (r: Result<u128, TryFromIntError>) { unimplemented!() }
+    open spec fn from_ok(s: usize) -> bool { 0 <= s as int <= u128::MAX }
+    open spec fn from_eq(s: usize, u: u128) -> bool { u as int == s as int }
+}
 
 pub trait StreamCipherSeekCore: StreamCipherCore {
     type Counter: StreamCipherCounter;
